@@ -58,7 +58,7 @@ reg(Check("C05", "exploration",
           "exhaustive enumeration: all 256 modes, all 256x256 ordered pairs, all strings of length <=5 (quick) / <=6 "
           "(thorough) over a 17-symbol alphabet incl. junk, '+', '-', 'N'; non-trivial = every case whose expected result "
           "differs from the identity (mode changes or input rejected); distinct = distinct inputs. Notifications: breadth-first search "
-          "to depth 4 (quick) / 5 (thorough) over histories of 49 permission-changing requests by 3 users on a group (own mode, others' "
+          "to depth 4 (quick) / 7 (thorough) over histories of 49 permission-changing requests by 3 users on a group (own mode, others' "
           "mode incl. invitations and ownership hand-over, subscribe, leave, unsubscribe, evict); after every step three trackers are "
           "compared with the topic's authoritative table: each user's passive session on 'me', a proxy table fed through the real "
           "Topic.updateAcsFromPresMsg from a passive admin session on the topic, and the acting session's own {ctrl} replies",
@@ -238,7 +238,7 @@ reg(Check("C19", "exploration",
           "query parser: every string of length <=6 (quick) / <=7 (thorough) over {a,b,1,@,space,tab,comma,quote,colon,e-acute} x "
           "{validators none, email+tel} x {login rewrite off,on} against a grammar-driven reference parser; rewriteTag: all tokens <=5 "
           "over a 10-symbol alphabet; normalizeTags: all lists <=3 from a 16-element menu x 2 limits; restricted-tag filters: all pairs "
-          "of <=3-subsets of 9 tags x 4 namespace configurations. Sessions: breadth-first search to depth 4 (quick) / 5 (thorough) over "
+          "of <=3-subsets of 9 tags x 4 namespace configurations. Sessions: breadth-first search to depth 4 (quick) / 7 (thorough) over "
           "histories of 30 operations (account and group creation with untidy / reserved tags; {set tags} on 'me' and on an owned group with 10 tag lists incl. reserved tags dropped / added / "
           "beyond the count limit / clear; per-session 'fnd' queries set / cleared / private / read from two sessions of one user, leave and "
           "re-join; an account suspended, a topic deleted) through real sessions with immutable namespaces {basic,email} and masked {tel}. "
@@ -308,14 +308,14 @@ MSG_RULE = ("BFS over histories of {pub by 4 users (one with forged sender heade
             "range lists, read/recv/kp/bogus notes with stale/valid/future ids, want/given flips of R and W, unsub/sub/leave/attach, reload} on a "
             "group topic holding 3 messages, depth 3 quick / 4 thorough; a set-semantics reference model runs along the history; after every "
             "transition each attached user probes {get data} with 6 range/limit shapes, {get del}, {get desc}, {get sub}. "
-            "p2p (C02, C03, C09): the same on a peer-to-peer topic (depth 4 quick / 6 thorough, the thorough tier with the larger alphabet; two more sessions of the participants watch their 'me' topics). chan (C02, C03, C09): BFS to depth 4 / 5 over 25 operations on a "
+            "p2p (C02, C03, C09): the same on a peer-to-peer topic (depth 4 quick / 6 thorough, the thorough tier with the larger alphabet; two more sessions of the participants watch their 'me' topics). chan (C02, C03, C09): BFS to depth 6 / 10 over 25 operations on a "
             "channel-enabled group (owner and member attached under the group name, two channel readers - one with two sessions - under the "
             "channel name, a stranger): publishes incl. by readers, reader attach / leave / unsubscribe, notes from members and readers, "
             "history reads, reload. suspended (C03): BFS to depth 6 / 7 over {member publishes to a group / p2p topic, root suspends / re-activates "
             "the owner, reload, re-attach, typing note}. suspend-at-load (C03): for every store-call boundary and atomic operation performed while a group / p2p topic is loaded, the root's "
             "suspension / re-activation of the owner handled completely at that point (the goroutine there is held); the member's publish "
             "afterwards is refused iff the owner is suspended. acl-fault (C03): the permission model's histories with every store call of the "
-            "last request failing once; after a request answered with an error every subscriber's publish is decided by the stored permissions. sys (C02, C03; also a part of C07): BFS to depth 4 / 5 over publishes / attach attempts / history reads on 'sys' by an "
+            "last request failing once; after a request answered with an error every subscriber's publish is decided by the stored permissions. sys (C02, C03; also a part of C07): BFS to depth 4 / 8 (the search saturates at 18 states) over publishes / attach attempts / history reads on 'sys' by an "
             "ordinary, an anonymous-level, two root users and a connection which has not logged in. races (C02, C03): all schedules up to the "
             "deviation bound of the C14 collision scenarios which contain a publish: no session receives a message twice or out of order. "
             "cluster (C02): every sequence up to length 4 / 5 of {member joins, channel reader joins, reader leaves, publish, publish without "
@@ -348,7 +348,7 @@ for _cid, _what in [("C03", "publish decision = attached AND W in want&given; a 
 reg(Check("C11", "model_checking",
           "BFS over sequences of 41 client messages (5 handshakes, 17 logins incl. an expired password record and credential responses, 3 account-administration requests, 13 logins incl. wrong password / expired / no-login / suspended / deleted / "
           "needs-validation / root tokens, 2 account creations, 9 privileged requests incl. on-behalf-of, 2 notes) on a fresh connection, "
-          "depth 5 quick / 6 thorough, against a 3-state machine; the session's own uid/level/version are compared with the model after every step",
+          "depth 5 quick / 9 thorough, against a 3-state machine; the session's own uid/level/version are compared with the model after every step",
           ["canonical schedule", "bcrypt runs at minimal cost in the instrumented build"],
           text=XS_NOTE, note="the sender-header clause is also checked on every publish of the msg model",
           technique="explicit-state model checking over the real session handlers against a reference state machine",
@@ -406,7 +406,7 @@ reg(Check("C10", "model_checking",
 reg(Check("C15", "model_checking",
           "BFS over 5 invitations (caller's two sessions, callee, outsider, group), 27 call events (ringing/accept/offer/answer/candidate/hang-up from "
           "each of 4 party sessions, wrong / earlier / later message ids, bogus, outsider), leave/re-attach of party and non-party sessions, establishment timeout and ordinary "
-          "traffic on one p2p topic with 4 attached sessions, depth 4 in both tiers (5 with calling unconfigured in the thorough tier; the call machine has 3 states and the search saturates), plus the same alphabet with calling unconfigured; oracle: "
+          "traffic on one p2p topic with 4 attached sessions, depth 4 quick / 8 thorough (5 with calling unconfigured; the call machine has 3 states and the search saturates at 88 states), plus the same alphabet with calling unconfigured; oracle: "
           "3-state call machine predicting reply codes, which sessions receive which {info call}, the accepted/terminal replacement messages in the store, "
           "and the topic's call slot (white box)",
           ["canonical schedule", "cluster proxy sessions not covered"],
